@@ -128,7 +128,7 @@ class Check(object):
                 out = pr.stdout
             except Exception as e:      # noqa
                 out = 'apalache failed to run: %r' % e
-            ok = ('EXITCODE: OK' in out and 'NoError' in out) if not expect_error else ('Checker has found an error' in out)
+            ok = ('EXITCODE: OK' in out and 'NoError' in out) if not expect_error else ('invariant 0 violated' in out and 'EXITCODE: ERROR (12)' in out)      # 12 = counterexample; parse / type errors exit with other codes
             self.cmds.append('apalache-mc check --inv=%s --length=0 spec/apalache/%s.tla' % (inv, module))
             self.parts['apalache_%s_%s' % (module, inv)] = 'refuted as expected' if (ok and expect_error) else ('proved for all integers' if ok else 'UNEXPECTED')
             if not ok:
